@@ -18,6 +18,17 @@ from physt.statistics import Statistics
 from physt.typing_aliases import DTypeLike
 
 
+def _as_float_array(data: Any) -> np.ndarray:
+    """Cast numeric data to float; text, dates and time spans are not numbers (numpy would cast them)."""
+    original = np.asarray(data)
+    if original.dtype.kind in "USMmV" or (
+        original.dtype.kind == "O"
+        and any(isinstance(item, (str, bytes)) for item in original.ravel())
+    ):
+        raise ValueError(f"Cannot extract numeric data from values of type {original.dtype}.")
+    return np.asarray(original, dtype=float)
+
+
 @singledispatch
 def extract_1d_array(
     data: Any, *, dropna: bool = True
@@ -46,7 +57,7 @@ def extract_1d_array(
     if np.isscalar(data):
         raise ValueError(f"Cannot extract array data from scalar {data!r}.")
     try:
-        array: np.ndarray = np.asarray(data, dtype=float)
+        array: np.ndarray = _as_float_array(data)
     except (ValueError, TypeError) as exc:
         raise ValueError(f"Cannot extract array data from {type(data)}") from exc
     if dropna:
@@ -93,7 +104,7 @@ def extract_nd_array(
     """
 
     try:
-        array: np.ndarray = np.asarray(data, dtype=float)
+        array: np.ndarray = _as_float_array(data)
     except ValueError as exc:
         if "The requested array has an inhomogeneous shape" in str(exc):
             raise ValueError("Data must have a regular 2D shape of (n, d)") from exc
